@@ -31,7 +31,7 @@ PROPERTIES = {
     'C19': dict(level='proof', trusted=[A_PY, A_REAL, A_INT, 'astropy.io.fits.util._is_int(v) == isinstance(v, int) (assumed contract)',
                                         'numpy.floor/ceil are the mathematical floor/ceiling'],
                 assumptions=[A_PY, A_REAL, A_INT]),
-    'C04': dict(level='proof', trusted=[A_PY, A_REAL, A_TRIG, A_NUMPY, A_UNITS,
+    'C04': dict(level='proof', bounded=['boxes'], trusted=[A_PY, A_REAL, A_TRIG, A_NUMPY, A_UNITS,
                                         'polygon members lie in the box: through the lemma "a point outside the extent of the vertices has an even crossing number", proved by induction over the edges (contracts/k_kernels.py), no longer trusted'],
                 assumptions=[A_PY, A_REAL, A_TRIG, A_NUMPY, A_UNITS,
                              'polygon boxes: enclosure of the vertices and minimality (each border reached by an extreme vertex) for any number of vertices']),
@@ -44,7 +44,7 @@ PROPERTIES = {
                 assumptions=[A_PY, A_REAL, A_TRIG, A_NUMPY, A_UNITS,
                              'polygon mask values under whole-pixel translation: proved through the translation invariance of the crossing parity and of the sampled fraction (lemmas by induction, contracts/k_kernels.py) together with the kernel contract in revealed form (FRAC = sampled fraction, discharged from the .pyx under C02); polygon membership under rotation is not proved (it is a topological fact about the even-odd rule, not a per-edge one): vertex positions are',
                              'regular polygons and compounds: rotate is covered through their components']),
-    'C17': dict(level='proof', trusted=[A_PY, A_REAL, A_NUMPY, A_UNITS, 'astropy SkyCoord/Quantity type predicates (isscalar, ndim, unit.physical_type) as modelled in externals/'],
+    'C17': dict(level='proof', bounded=['models'], trusted=[A_PY, A_REAL, A_NUMPY, A_UNITS, 'astropy SkyCoord/Quantity type predicates (isscalar, ndim, unit.physical_type) as modelled in externals/'],
                 assumptions=[A_PY, A_REAL, A_NUMPY, A_UNITS,
                              'the catalogue of candidate values is a finite set of kinds; numeric kinds are symbolic (all reals / ints), the rest concrete representatives',
                              'interleavings of assignments: each assignment is verified from an arbitrary well-formed state, so sequences follow by induction']),
@@ -55,10 +55,10 @@ PROPERTIES = {
                              'the 1e-5 relative tolerance is specified as a band: positions within 1e-5 relative of both values must compare equal, positions further apart than 1e-8 + 1e-5 max must compare unequal']),
     'C20': dict(level='proof', bounded=['pixcoord'], trusted=[A_PY, A_REAL, A_TRIG, A_NUMPY, A_UNITS, 'A-WCS: pixel_to_world/world_to_pixel of a WCS are inverse functions for equal (origin, mode); origin 1 = origin 0 + 1 (externals/wcs_model.py)'],
                 assumptions=[A_PY, A_REAL, A_TRIG, A_NUMPY, A_UNITS, 'broadcasting is verified for the shape pairs scalar/1-D/2-D/size-1 listed in the contract; boolean/integer-array fancy indexing is delegated to numpy and not modelled']),
-    'C06': dict(level='proof', trusted=[A_PY, A_REAL, A_TRIG, A_NUMPY, A_UNITS, 'A-WCS: a WCS is an invertible pair of abstract functions (externals/wcs_model.py); SkyCoord.directional_offset_by is an abstract function; atan2/hypot as in A-TRIG'],
+    'C06': dict(level='proof', bounded=['models'], trusted=[A_PY, A_REAL, A_TRIG, A_NUMPY, A_UNITS, 'A-WCS: a WCS is an invertible pair of abstract functions (externals/wcs_model.py); SkyCoord.directional_offset_by is an abstract function; atan2/hypot as in A-TRIG'],
                 assumptions=[A_PY, A_REAL, A_TRIG, A_NUMPY, A_UNITS, 'the projection and its 1e-6 numerical accuracy are not verified; region and WCS share the celestial frame; the WCS is locally non-degenerate at the region centre',
                              'polygon membership after the round trip is not compared (vertices are); annulus membership follows from geometry + C01']),
-    'C07': dict(level='proof', trusted=[A_PY, A_REAL, A_TRIG, A_NUMPY, A_UNITS, 'A-WCS + ASSUMED local-similarity model of an undistorted WCS (contracts/c07_wcs.py: local_model)'],
+    'C07': dict(level='proof', bounded=['models'], trusted=[A_PY, A_REAL, A_TRIG, A_NUMPY, A_UNITS, 'A-WCS + ASSUMED local-similarity model of an undistorted WCS (contracts/c07_wcs.py: local_model)'],
                 assumptions=[A_PY, A_REAL, A_TRIG, A_NUMPY, A_UNITS, 'the local-similarity model is the meaning given to "undistorted celestial WCS"; distortion and projection mathematics are out of scope',
                              'angles are compared modulo a full turn (through cos and sin)']),
     'C08': dict(level='proof', trusted=[A_PY, A_REAL, A_TRIG, A_NUMPY, A_UNITS, 'A-WCS (conversion clause)', 'assumed kernel contracts (mask clause, as C02)'],
@@ -73,13 +73,13 @@ PROPERTIES = {
                 assumptions=[A_PY, A_REAL, A_INT, A_NUMPY,
                              'arrays are index functions with symbolic shapes; dtype promotion, Quantity unit re-attachment and NaN/inf fill values are not covered by the VCs',
                              'boolean selections are compared structurally: same window, same values and same selection mask at every pixel imply the same row-major sequence']),
-    'C18': dict(level='proof', trusted=[A_PY, A_REAL, A_TRIG, A_NUMPY, A_UNITS, 'A-MPL: documented geometry of matplotlib Circle/Ellipse/Rectangle(rotation about xy)/Polygon/Arrow/Line2D/Text/PathPatch constructors; a patch outline is an abstract polyline determined by the patch class and its geometric arguments (externals/mpl_*.py)'],
-                assumptions=[A_PY, A_REAL, A_TRIG, A_NUMPY, A_UNITS, 'Bezier approximation tolerance, fill rule and rendering are outside the proof',
+    'C18': dict(level='proof', bounded=['artists'], trusted=[A_PY, A_REAL, A_TRIG, A_NUMPY, A_UNITS, 'A-MPL: documented geometry of matplotlib Circle/Ellipse/Rectangle(rotation about xy)/Polygon/Arrow/Line2D/Text/PathPatch constructors; a patch outline is an abstract polyline determined by the patch class and its geometric arguments (externals/mpl_*.py)'],
+                assumptions=[A_PY, A_REAL, A_TRIG, A_NUMPY, A_UNITS, 'Bezier approximation tolerance, fill rule and rendering are outside the proof; A-MPL itself is exercised, not proved, by the bounded runner `artists`, which asks the paths that the real matplotlib builds',
                              'the artist is compared with the verified membership function (C01) boundary-agnostically; regular polygons share the polygon code path']),
     'C09': dict(level='other', bounded=['ds9_roundtrip'], trusted=[A_PY, A_REAL, A_UNITS, 'A-FMT: format(v, ".Nf") renders v with N decimals using only digits, "." and "-", and float() of that text is within half a unit of the last decimal of v', 'SkyCoord.to_string / Angle.to_string / Quantity.to_string in decimal degrees as modelled in externals/'],
                 explanation='Structural layer proved (all parameters, every class/frame/precision/list shape in the contracts): the text written by the real serialiser equals the DS9 conventions (symbolic text = concrete strings + fixed-point renderings), lists keep each region\'s frame/shape/effective properties under hoisting, inexpressible regions are skipped without altering the rest, serialising is deterministic, and the real decoder applied to the written parameter tokens returns every quantity within half a unit. The text layer of the reader (line splitting, regular expressions, metadata lexing) is outside the verifier and is covered by the bounded native round trip only.',
                 assumptions=[A_PY, A_REAL, A_UNITS, 'metadata vocabulary: the representative entries in contracts/c09_ds9.py::VOCAB', 'ellipse axes are written as semi-axes, so a full axis is recovered within one unit (reading adopted in DESIGN section 6)']),
-    'C10': dict(level='other', bounded=['ds9_grammar'], trusted=[A_PY, A_REAL, A_UNITS, 'A-FMT (numbers written in positional decimal notation are parsed back exactly by float())', 'astropy Angle parsing of "<n>", "a:b:c", "XhYmZs", "XdYmZs" as modelled in externals/coordinates.py'],
+    'C10': dict(level='other', bounded=['ds9_grammar', 'models'], trusted=[A_PY, A_REAL, A_UNITS, 'A-FMT (numbers written in positional decimal notation are parsed back exactly by float())', 'astropy Angle parsing of "<n>", "a:b:c", "XhYmZs", "XdYmZs" as modelled in externals/coordinates.py'],
                 explanation='Token lexers proved for all numeric values (pixel positions 1-based, pixel sizes unshifted, sky numbers in degrees, the suffix table, sexagesimal longitudes in hours for equatorial frames only, rejection of wrong-kind tokens) and the shape-parameter decoder proved through C09 (ellipse radii are semi-axes, last box/ellipse parameter is the angle). The line-level grammar (active frame until changed, unsupported frames/shapes skipped, separators, case, include sign and property, multi-radius annuli, text delimiters) is text processing with regular expressions, outside the verifier: it is checked by the bounded grammar-driven comparison against an independent generator only.',
                 assumptions=[A_PY, A_REAL, A_UNITS, 'global properties overriding an absent include sign (F23 in DESIGN) are not generated']),
     'C12': dict(level='proof', bounded=['fits_roundtrip'], trusted=[A_PY, A_REAL, A_NUMPY, A_UNITS, 'A-TABLE: an astropy QTable is an ordered mapping column -> per-row values; Quantity(list) stacks rows; np.pad/atleast_1d as modelled', 'A-FITS (file layer, bounded only): BinTableHDU.writeto / QTable.read preserve the table'],
@@ -89,8 +89,9 @@ PROPERTIES = {
     'C14': dict(level='proof', bounded=['file_io'], trusted=[A_PY, 'A-OS: os.path.lexists/exists are queries; open(p, "w") truncates/creates p at once and is the only way the DS9/CRTF writers touch the file system; get_readable_fileobj decompresses gzip transparently while a plain open() does not', 'A-FITS: BinTableHDU.writeto(overwrite=False) raises OSError before modifying an existing file; fits.open returns what was written'],
                 assumptions=[A_PY, 'ghost file system: every effect on the destination is an event; faults inside fh.write() and real symlink semantics are outside the model (the bounded native check exercises existing files, symlinks and dangling symlinks on a real file system)',
                              'the failing element is a region the serialiser of that format raises on (CRTF: compound region; DS9: unformattable parameter) or an invalid option']),
-    'C11': dict(level='other', bounded=['crtf_roundtrip'], trusted=[A_PY, A_REAL, A_UNITS, 'A-FMT', 'frame transforms are abstract functions (astropy)', 'astropy Angle/Quantity parsing of CASA notations (bounded part)'],
-                explanation='Structural layer proved for all parameter values: the text written by the real CRTF serialiser for circle, annulus, ellipse ([semi-major, semi-minor] = [height/2, width/2]), rotbox, line, text and symbol regions in J2000/B1950/ICRS/GALACTIC, with the leading "-" for excluded regions, equals the CASA conventions; serialising does not modify its inputs and is repeatable; the shape decoder inverts the ellipse-axis convention exactly. The reader (regular expressions over text: global/inline precedence, coord=, ann, box/centerbox/rotbox, unit notations) and the full round trip are covered by the bounded native check only.',
+    'C11': dict(level='other', bounded=['crtf_roundtrip', 'models'], trusted=[A_PY, A_REAL, A_UNITS, 'A-FMT', 'frame transforms are abstract functions (astropy)', 'astropy Angle/Quantity parsing of CASA notations: "<n><unit>", "a:b:c" in the given unit, "XhYmZs", "XdYmZs", Angle(..., u.hour) = hourangle (externals/coordinates.py)',
+                                                                             'A-RE: search() with a pattern of the shape (<character class>*)(.*) matches at position 0, group 1 = longest prefix over the class, group 2 = the rest (pyvc/m_re.py); every other regular expression is executed by the real `re` on concrete text only'],
+                explanation='Structural layer proved for all parameter values: the text written by the real CRTF serialiser for circle, annulus, ellipse ([semi-major, semi-minor] = [height/2, width/2]), rotbox, line, text and symbol regions in J2000/B1950/ICRS/GALACTIC, with the leading "-" for excluded regions, equals the CASA conventions; serialising does not modify its inputs and is repeatable; the shape decoder inverts the ellipse-axis convention exactly. Reading is proved below the line grammar: (1) every coordinate / length token notation (<n>pix, <n>deg, <n>rad, arcmin, arcsec, quote suffixes, hh:mm:ss.s = hours, dd.mm.ss.s = degrees, XhYmZs, XdYmZs; a bare length is refused) denotes the CASA value for all numbers, by the real lexers on symbolic numerals; (2) the real _CRTFRegionParser constructor/parse()/make_shape and _Shape.to_region, given the token list of a line, build the region the CASA rules prescribe for all ten shape keywords in image and celestial frames (ellipse [major, minor] semi-axes, box corners, centerbox, rotbox with the angle in the unit written, annulus, poly, line, symbol, text), with coord= from the global defaults, the leading "-", the annotation type and global defaults routed to meta/visual. Only the regular-expression layer (splitting a line into shape keyword, bracket groups and key=value pairs; global/inline precedence) and the full text round trip remain bounded.',
                 assumptions=[A_PY, A_REAL, A_UNITS, 'known findings F18-F21 (image-frame suffixes, arcsec suffix, symbol-less points, string-valued metadata) are recorded and reproduced on every run']),
     'C03': dict(level='other', bounded=['exact_masks'], trusted=[A_PY, A_REAL, A_TRIG, A_NUMPY, A_UNITS, 'compiled kernels: assumed contract for the arguments they receive (as C02)'],
                 explanation='No contract within reach of an SMT solver over the reals expresses the overlap-area integral, its 1e-8 accuracy, exact 1/0 in floating point, or the convergence rate, so the central clause of C03 is NOT proved. Proved facets (Python layer, all parameters): mode="exact" reaches the circle/ellipse kernels with use_exact = 1 and the same centred unit-pixel grid and shape parameters as the other modes, the result is returned unmodified with the region\'s own box, the mask follows later parameter assignments, rectangle/polygon exact raise NotImplementedError. Bounded (run-time, not proved): every pixel of exact circle/ellipse masks against an independent polygon-disk area computation (1e-8), range, sums, 1/0 pixels, and convergence of subpixel masks of all four maskable shapes.',
